@@ -1,4 +1,47 @@
-(* placeholder until the composition theorems are in place *)
-From GT Require Import Validate.
-Example C01_pending : True. Proof. exact I. Qed.
-Print Assumptions C01_pending.
+(* C01 — spec-valid operations are accepted by the default rule plan. *)
+From GT Require Import Visitor Validate.
+From GTS Require Import Annot WfSchema SpecRules SpecValid.
+From GTP Require Import C07_position_proofs C01_proofs.
+
+(* The full statement (kept visible).  As written it is FALSE, see C01_needs_const_defaults. *)
+Definition C01_statement : Prop := forall s d,
+  wf_schema s = true -> doc_types_proper d = true -> spec_valid s d = true ->
+  validate s d default_plan = Ok [].
+
+(* ADJUSTED: additional hypothesis [defaults_const d] (C07_position_proofs.v): no variable occurs
+   inside the default value of a variable definition (the grammar's DefaultValue : = Value[Const];
+   the AST of the model can express it).  The model's VariablesInAllowedPosition checks such an
+   occurrence as a variable usage, the specification does not. *)
+
+(* What is proved: the same with the soundness of the field-merging rule as a hypothesis (C05 is
+   partial: the merge rule's verdict is proved against its specification only for documents
+   without named fragment spreads) *)
+Theorem C01_partial : forall s d,
+  wf_schema s = true -> doc_types_proper d = true -> defaults_const d = true ->
+  spec_valid s d = true ->
+  snd (run_rule R_OverlappingFieldsCanBeMerged s d ctx0) = mkRes [] false ->
+  validate s d default_plan = Ok [].
+Proof. exact spec_valid_accepted. Qed.
+Print Assumptions C01_partial.
+
+(* every other rule is sound on its own: it reports nothing on a spec-valid document
+   (constant default values are needed for VariablesInAllowedPosition only) *)
+Theorem C01_rules_sound : forall s d r,
+  wf_schema s = true -> doc_types_proper d = true -> spec_valid s d = true ->
+  r <> R_OverlappingFieldsCanBeMerged ->
+  (r = R_VariablesInAllowedPosition -> defaults_const d = true) ->
+  run_alone r s d = [].
+Proof. exact spec_valid_rule_silent. Qed.
+Print Assumptions C01_rules_sound.
+
+(* without [defaults_const] both statements are false:
+   query Q($a: Int = $b, $b: String) { f(x: $a, y: $b) } on type Query { f(x: Int, y: String): Int } *)
+Theorem C01_needs_const_defaults :
+  wf_schema c01_cex_schema = true /\ doc_types_proper c01_cex_doc = true /\
+  spec_valid c01_cex_schema c01_cex_doc = true /\
+  snd (run_rule R_OverlappingFieldsCanBeMerged c01_cex_schema c01_cex_doc ctx0) = mkRes [] false /\
+  run_alone R_VariablesInAllowedPosition c01_cex_schema c01_cex_doc <> [] /\
+  validate c01_cex_schema c01_cex_doc default_plan <> Ok [] /\
+  defaults_const c01_cex_doc = false.
+Proof. exact c01_needs_const_defaults. Qed.
+Print Assumptions C01_needs_const_defaults.
